@@ -307,12 +307,23 @@ func c12Object(pj *simdjson.ParsedJson, roots []*rj.Node, n *rj.Node, path []int
 		return fmt.Errorf("Object() at %v: %v", path, err)
 	}
 	many := len(n.O) >= 2
-	// FindKey
-	for _, k := range candidateKeys(n) {
+	// FindKey: every key on a fresh copy of the Object value, then all of them again (last to first, and each one
+	// twice) on ONE Object value, so that the answer may not depend on what was looked up before.
+	cands := candidateKeys(n)
+	lookups := append([]string(nil), cands...)
+	for i := len(cands) - 1; i >= 0; i-- {
+		lookups = append(lookups, cands[i], cands[i])
+	}
+	shared := *obj
+	for li, k := range lookups {
 		idx, want := firstMember(n, k)
 		o := *obj
+		op := &o
+		if li >= len(cands) {
+			op = &shared
+		}
 		var dst simdjson.Element
-		el := o.FindKey(k, &dst)
+		el := op.FindKey(k, &dst)
 		st.q("FindKey", many && idx != 0)
 		if want == nil {
 			if el != nil {
@@ -331,10 +342,14 @@ func c12Object(pj *simdjson.ParsedJson, roots []*rj.Node, n *rj.Node, path []int
 		}
 	}
 	// FindPath
-	for _, kp := range keyPaths(n, 60) {
+	for pi, kp := range keyPaths(n, 60) {
 		want, notFound, other := expectPath(n, kp)
 		o := *obj
-		el, err := o.FindPath(nil, kp...)
+		op := &o
+		if pi%2 == 1 {
+			op = &shared // the Object value that has served all the FindKey calls above
+		}
+		el, err := op.FindPath(nil, kp...)
 		st.q("FindPath", len(kp) >= 2 || (many && want != nil))
 		switch {
 		case notFound:
